@@ -6,6 +6,7 @@
 //	<id> unm <budget hex> <hex bytes>
 //	    rt.UnmarshalConst on the bytes; prints
 //	    <id> val <cst> <used hex> <hex of MarshalConst(value)> | nil <used> | err <class> <used> | gopanic <hexmsg>
+//	    each followed by A<bytes allocated by the call, hex>
 //	<id> chunk <hex lua source>
 //	    compiles and runs the chunk with a global reg(f) that records closures; then for the
 //	    chunk itself and every recorded closure: export of the code, string.dump, load of the
@@ -30,6 +31,7 @@ import (
 	"io"
 	"math"
 	"os"
+	"runtime"
 	"strconv"
 	"strings"
 
@@ -166,7 +168,24 @@ func doUnm(id string, f []string) string {
 				res = "gopanic " + hex.EncodeToString([]byte(fmt.Sprint(x)))
 			}
 		}()
-		v, used, err := rt.UnmarshalConst(bytes.NewBuffer(data), budget)
+		// bytes the call allocated (TotalAlloc is exact after the stop-the-world of ReadMemStats)
+		// The call is made twice and the smaller figure reported: the first use of a type by
+		// encoding/binary fills reflection caches, which is not an allocation of this call.
+		var m0, m1, m2 runtime.MemStats
+		buf := bytes.NewBuffer(data)
+		runtime.ReadMemStats(&m0)
+		v, used, err := rt.UnmarshalConst(buf, budget)
+		runtime.ReadMemStats(&m1)
+		func() {
+			defer func() { recover() }()
+			rt.UnmarshalConst(bytes.NewBuffer(data), budget)
+		}()
+		runtime.ReadMemStats(&m2)
+		alloc := m1.TotalAlloc - m0.TotalAlloc
+		if d := m2.TotalAlloc - m1.TotalAlloc; d < alloc {
+			alloc = d
+		}
+		defer func() { res += fmt.Sprintf(" A%x", alloc) }()
 		switch {
 		case err != nil:
 			res = fmt.Sprintf("err %s %x", errClass(err), used)
